@@ -114,6 +114,14 @@ Definition get_vertex_dofs D dofnames offs (nodes skip : list nat) : view :=
 Definition complement (N : nat) (d : list nat) : list nat :=
   filter (fun x => negb (existsb (Nat.eqb x) d)) (seq 0 N).
 
+(* ---- Mesh.with_boundaries / with_subdomains: {**old, **new} — a named set defined again REPLACES the old one, all other names
+   are kept; the operand is a value (untouched).  Dictionaries are association lists read by first match. *)
+Definition tag_lookup (tb : list (nat * list nat)) (k : nat) : option (list nat) :=
+  match find (fun kv => Nat.eqb (fst kv) k) tb with Some kv => Some (snd kv) | None => None end.
+Definition with_tags (old new : list (nat * list nat)) : list (nat * list nat) := new ++ old.
+(* the tags of a mesh after a history of with_boundaries calls (oldest first) *)
+Definition tag_history (hist : list (list (nat * list nat))) : list (nat * list nat) := fold_left with_tags hist [].
+
 (* ---- selectors: what normalize_facets / normalize_elements accept *)
 Inductive sel :=
 | SInt (i : nat)                 (* int *)
@@ -135,17 +143,14 @@ Fixpoint normalize (n : nat) (dflt : option (list nat)) (all_ok : bool) (tags : 
   | SAll => if all_ok then Some (seq 0 n) else None
   | SPred p => Some (filter p (seq 0 n))
   | STag k => tags k
-  | SColl l =>
-      match l with
-      | [] => None          (* np.concatenate of nothing raises *)
-      | _ => option_map (uniq Nat.compare)
-               ((fix go (l : list sel) : option (list nat) :=
-                   match l with
-                   | [] => Some []
-                   | x :: r => match normalize n dflt all_ok tags x, go r with
-                               | Some a, Some b => Some (a ++ b)
-                               | _, _ => None
-                               end
-                   end) l)
-      end
+  | SColl l =>                   (* np.unique(np.concatenate(...)); the empty collection denotes the empty set *)
+      option_map (uniq Nat.compare)
+        ((fix go (l : list sel) : option (list nat) :=
+            match l with
+            | [] => Some []
+            | x :: r => match normalize n dflt all_ok tags x, go r with
+                        | Some a, Some b => Some (a ++ b)
+                        | _, _ => None
+                        end
+            end) l)
   end.
